@@ -1,6 +1,8 @@
 //! Engine R correspondence harness (property C07): the transform I/O plan of the implementation.
 //!
-//! One case per stdin line, one JSON result per stdout line.
+//! usage: ro <case file>      one case per line of the file, one JSON result per stdout line.
+//! (The cases are NOT read from stdin: Transform::new probes the program with an inherited stdin, so a
+//! probed `cat`/`dd` would eat the remaining cases.  Run with stdin = /dev/null.)
 //!
 //!   plan <in_place 0|1> <no_copy 0|1> <hex(path of an existing file)> <hex(command string)>
 //!       builds the transform exactly as `fclones group` does (GroupConfig::transform(), i.e.
@@ -91,7 +93,7 @@ impl Canon {
         while i < a.len() {
             if a[i..].starts_with(&prefix) {
                 let mut j = i + prefix.len();
-                while j < a.len() && a[j].is_ascii_hexdigit() {
+                while j < a.len() && (a[j].is_ascii_alphanumeric() || a[j] == b'-' || a[j] == b'_' || a[j] == b'.') {
                     j += 1;
                 }
                 let name = a[i..j].to_vec();
@@ -112,10 +114,11 @@ impl Canon {
 }
 
 fn main() {
-    let stdin = std::io::stdin();
+    let case_file = std::env::args().nth(1).expect("usage: ro <case file>");
+    let cases = std::io::BufReader::new(std::fs::File::open(case_file).expect("case file"));
     let stdout = std::io::stdout();
     let mut out = stdout.lock();
-    for line in stdin.lock().lines() {
+    for line in cases.lines() {
         let line = line.unwrap();
         let f: Vec<&str> = line.split(' ').collect();
         if f.len() != 5 {
